@@ -51,7 +51,9 @@ func CheckBracketing(log []Event) error {
 			if s.open != e.Key {
 				return fmt.Errorf("event %d: %s %s for %s without a matching start (open: %q)", i, parts[0], parts[1], e.Key, s.open)
 			}
-			if !s.called {
+			// a failure may be reported before the real call is made (the caller has
+			// given up, say); a success without it claims work that was never done
+			if !s.called && parts[1] == "success" {
 				return fmt.Errorf("event %d: %s %s for %s although the real call never happened", i, parts[0], parts[1], e.Key)
 			}
 			if parts[1] == "success" {
